@@ -24,6 +24,9 @@ TEMPLATES = {
             [(0, 1), (0, 2), (0, 3), (0, 4)]),
     # same molecules with the bridging atom listed last: the bond walk must then step from a higher to a lower index
     "OOC": (["O", "O", "C"], [(1.16, 0.0, 0.0), (-1.16, 0.0, 0.0), (0.0, 0.0, 0.0)], [(0, 2), (1, 2)]),
+    # a chain H-O-O-H listed so that an INNER atom comes after the neighbour it is reached from and before the next one
+    "HOOH_scr": (["H", "O", "H", "O"], [(1.062, 0.6445, 0.6445), (-0.73, 0.0, 0.0), (-1.062, 0.6445, -0.6445), (0.73, 0.0, 0.0)], [(0, 3), (3, 1), (1, 2)]),
+    "HOOH_rev": (["O", "H", "O", "H"], [(0.73, 0.0, 0.0), (-1.062, 0.6445, -0.6445), (-0.73, 0.0, 0.0), (1.062, 0.6445, 0.6445)], [(3, 0), (0, 2), (2, 1)]),
     "HHO": (["H", "H", "O"], [(0.757, 0.586, 0.0), (-0.757, 0.586, 0.0), (0.0, 0.0, 0.0)], [(0, 2), (1, 2)]),
 }
 
@@ -36,6 +39,8 @@ ZPRIME = {
     "2ch4co2": ["CH4", "CO2"],
     "1ooc": ["OOC"],
     "2hho_co": ["HHO", "CO"],
+    "1hooh_scr": ["HOOH_scr"],
+    "2hooh_rev_h2o": ["HOOH_rev", "H2O"],
 }
 
 CENTRES = (0.017, 0.137, 0.289, 0.611, 0.983)
